@@ -7,9 +7,10 @@ oracle: brute-force shadow inside harness.cpp / harness_idx.cpp (independent of 
 import os, re, sys
 sys.path.insert(0, os.path.dirname(os.path.abspath(__file__)))
 
+GEN = ['gen_log2.json', 'gen_segments.json']
 VARIANTS = [0, 1, 2, 3]
 UNIQ_MENU = [[0], [0, 3], [1, 2]]          # (id) (id,c) (a,b)
-MULTI_MENU = [[2], [3], [2, 3]]            # (b) (c) (b,c)
+MULTI_MENU = [[2], [3], [2, 3], [1, 2]]    # (b) (c) (b,c) (a,b)
 PREDS = ['T', 'E 1 0', 'E 2 3', 'L 0 20', 'N E 3 2', '& L 1 2 N E 2 0', 'L 2 3', 'E 3 7', 'N L 0 5']
 
 
@@ -30,7 +31,7 @@ def gen_table_case(r, kind, copy_faults=False):
     """kind: 'small' | 'medium' | 'big'"""
     sh = Shadow(); ops = []
     uniq = [u for u in UNIQ_MENU if r.chance(1, 2)]
-    multi = [m for m in MULTI_MENU if r.chance(2, 3)]
+    multi = [m for m in MULTI_MENU if r.chance(1, 2)]
     if kind == 'big':
         uniq = [u for u in uniq if u != [1, 2]]
         if not multi: multi = [[2]]
@@ -138,7 +139,7 @@ def gen_table_case(r, kind, copy_faults=False):
                 if q not in seen: seen.append(q)
             sh.rows = [sh.rows[q] for q in seen]
         elif t < (96 if copy_faults else 90):
-            cf = 1 if copy_faults else 0
+            cf = f()
             if r.chance(1, 2): ops.append('CP %d' % cf)
             else:
                 p = r.choice(PREDS); ops.append('CF %d %s' % (cf, p))
@@ -252,6 +253,7 @@ def run(ctx):
                         'column equality is == (DataTraits::IsEqual)',
                         'allocation failures are std::bad_alloc thrown by the table\'s memory manager',
                         'std::lower_bound is modelled by a linear scan (equal on sorted segments, which is the proved invariant)']
+    ctx.regen(GEN)
     ctx.prove()
     exes = build_harnesses(ctx)
     missing = [k for k, v in exes.items() if v is None]
